@@ -120,4 +120,35 @@ def utSumAxis {α} [Inhabited α] [Add α] [Zero α] (x : NdArray α) (axis : In
   let a : Nat := if axis < 0 then ((x.shape.length : Int) + axis).toNat else axis.toNat + 2
   sumAxis x a
 
+/-! ## item assignment -/
+
+/-- every multi-index of a shape, in row-major order -/
+def allIdx (s : List Nat) : List (List Nat) := (List.range (numel s)).map (unravel s)
+
+/-- `a[idx] = …` for basic indexing, with the assigned value given per *result* index `j`:
+cell `i` of `a` receives `val j` for the last selected `j` whose source position is `i`
+(for basic indexing the position map is injective, so there is exactly one), all other cells keep their value -/
+def setitemWith {α} [Inhabited α] (a : NdArray α) (idx : List Idx) (val : List Nat → α) : Option (NdArray α) := do
+  let (s, m) ← getitemMap a.shape idx
+  pure (ofFn a.shape fun i =>
+    match (allIdx s).reverse.find? (fun j => m j == i) with
+    | some j => val j
+    | none => a.get i)
+
+/-- `UTPM.__setitem__` with a UTPM right-hand side: `data[(:, :) + idx] = rhs.data` after UTPM-aware broadcasting
+of the coefficient shape of `rhs` against the selection -/
+def utSetitem {α} [Inhabited α] (x : NdArray α) (idx : List Idx) (v : NdArray α) : Option (NdArray α) :=
+  setitemWith x (fullSl :: fullSl :: idx) fun dpj =>
+    match dpj with
+    | d :: p :: j => v.get (d :: p :: bidx (v.shape.drop 2) j)
+    | _ => default
+
+/-- `UTPM.__setitem__` with a plain array / scalar `c`: the zeroth coefficient of the selected cells becomes `c`
+(broadcast), all their higher coefficients are cleared -/
+def utSetitemConst {α} [Inhabited α] [Zero α] (x : NdArray α) (idx : List Idx) (c : NdArray α) : Option (NdArray α) :=
+  setitemWith x (fullSl :: fullSl :: idx) fun dpj =>
+    match dpj with
+    | d :: _ :: j => if d = 0 then c.get (bidx c.shape j) else 0
+    | _ => default
+
 end AV
